@@ -1,4 +1,4 @@
-import Proofs.Search
+import Proofs.Refine
 
 /-!
 # C03 — `search(max_evals)` budget is honoured and accumulates over repeated calls
@@ -131,6 +131,44 @@ theorem C03_table_accumulates (W : Nat) (hW : 1 ≤ W) (hist : List (Call × Lis
   obtain ⟨hq, _, hrows⟩ := runCalls_settled hist (init W) hW (init_quiet W) hh
   refine ⟨hq.running, hq.stored, hq.pending, ?_⟩
   unfold after outsOf; rw [hrows]; simp [init]
+
+end DH.Search
+
+namespace DH.Refine
+open DH
+
+/-- **C03 (the counters model is an abstraction of the per-job timeline model of C14).**
+`absEv` projects a timeline state (jobs with program counters, clocks, semaphores, result list) onto
+the counters of `Model/Search.lean`; `Sim t c` says `c` is that projection up to the history variable
+`asks` (`sim_iff_abs`).  For every number of workers, every family of run-functions, every history of
+`search()` calls of the timeline model that returned (any mix of budgets, strict budgets, timeouts,
+expired or not, any reports, any ask delays) and every further call that returns: the counters model,
+started from `init W` and fed the *induced* history and schedule (per gather: how many jobs were
+reported, whether the clock had passed the deadline), is in the projected state before the call,
+ends with the same stop reason, in the projected final state, having counted exactly the jobs the
+timeline model created.  (`loop_sim`, `search_sim`, `runSearches_sim` are the steps.) -/
+theorem C03_abstracts_C14 (W : Nat) (specs : List Timeout.Spec) (hist : List Timeout.SCall)
+    (hp : TimeoutsPos hist)
+    (hh : ∀ st ∈ (Timeout.runSearches (Timeout.init W true specs) hist).2, Timeout.SettledStop st)
+    (c : Timeout.Call) (reps : List (List Nat)) (drainRep : List Nat)
+    (hpos : ∀ tt, c.timeout = some tt → 0 < tt)
+    (hs : Timeout.SettledStop
+      (Timeout.search (Timeout.runSearches (Timeout.init W true specs) hist).1 c reps drainRep).2) :
+    let t := (Timeout.runSearches (Timeout.init W true specs) hist).1
+    let cs := (Search.runCalls {} (Search.init W) (inducedHist (Timeout.init W true specs) hist)).1
+    let r := Search.searchCall {} cs (callOf c) (inducedCall t c reps)
+    { cs with asks := [] } = absEv t ∧
+    r.2.stop = convStop (Timeout.search t c reps drainRep).2 ∧
+    { r.1 with asks := [] } = absEv (Timeout.search t c reps drainRep).1 ∧
+    r.2.evals = (Timeout.search t c reps drainRep).1.jobs.length - t.jobs.length := by
+  intro t cs r
+  obtain ⟨b1, b2, _⟩ := runSearches_sim hist _ _ (sim_init W specs) (Timeout.rep_init W true specs) hp hh
+  obtain ⟨a1, a2, a3⟩ := search_sim t cs c reps drainRep b1 b2 hpos hs
+  exact ⟨sim_iff_abs.mp b1, a1, sim_iff_abs.mp a2, a3⟩
+
+end DH.Refine
+
+namespace DH.Search
 
 /-! ### non-vacuity: concrete histories (W = 3) that satisfy the hypotheses -/
 
